@@ -25,7 +25,7 @@ impl Property for C03 {
     fn cases(tier: Tier) -> u32 {
         match tier {
             Tier::Quick => 1200,
-            Tier::Thorough => 30_000,
+            Tier::Thorough => 15_000,
         }
     }
 
@@ -38,7 +38,7 @@ impl Property for C03 {
     fn strategy(tier: Tier) -> BoxedStrategy<Case> {
         let maxlen = match tier {
             Tier::Quick => 160u16,
-            Tier::Thorough => 900u16,
+            Tier::Thorough => 400u16,
         };
         (chain_params(maxlen), net_params(), prop::collection::vec(reg_spec(), 1..4), prop::collection::vec(step_strategy(true), 0..40))
             .prop_map(|(chain, net, initial, steps)| Case { chain, net, initial, steps })
